@@ -141,7 +141,7 @@ PLANS = {
     },
     "C17": {
         "level": "proof",
-        "sidecars": ["psize"],
+        "sidecars": ["psize", "driver"],
         "extras": [],
         "explanation": "contracts on the Psize setters, set_smallest (loop invariant + variant), set_all",
     },
